@@ -8,6 +8,8 @@ use swiftness_air::{
 };
 use swiftness_transcript::transcript::Transcript;
 
+const MAX_LOG_EVAL_DOMAIN_SIZE: u64 = 64;
+
 impl StarkProof {
     pub fn verify<Layout: GenericLayoutTrait + LayoutTrait>(
         &self,
@@ -23,6 +25,18 @@ impl StarkProof {
             n_original_columns.into(),
             n_interaction_columns.into(),
         )?;
+
+        // The composition polynomial is committed in CONSTRAINT_DEGREE columns.
+        if self.config.composition.n_columns != Felt::from(Layout::CONSTRAINT_DEGREE) {
+            return Err(Error::InvalidCompositionColumns);
+        }
+
+        // Evaluation domains of size greater than 2**64 are not supported (see queries_to_points).
+        if self.config.log_trace_domain_size + self.config.log_n_cosets
+            > Felt::from(MAX_LOG_EVAL_DOMAIN_SIZE)
+        {
+            return Err(Error::DomainTooLarge);
+        }
 
         // Validate the public input.
         let stark_domains =
@@ -86,6 +100,12 @@ pub enum Error {
 
     #[error("Column missing")]
     ColumnMissing,
+
+    #[error("composition commitment does not have CONSTRAINT_DEGREE columns")]
+    InvalidCompositionColumns,
+
+    #[error("evaluation domain larger than 2**64")]
+    DomainTooLarge,
 }
 
 #[cfg(not(feature = "std"))]
@@ -108,4 +128,10 @@ pub enum Error {
 
     #[error("Column missing")]
     ColumnMissing,
+
+    #[error("composition commitment does not have CONSTRAINT_DEGREE columns")]
+    InvalidCompositionColumns,
+
+    #[error("evaluation domain larger than 2**64")]
+    DomainTooLarge,
 }
